@@ -15,6 +15,7 @@ mv "tests/$demo.rs" "/tmp/$demo.rs.aside"
 echo "== suite with change (demo moved aside)"; cargo test --offline --no-fail-fast 2>&1 | grep -E "^test result|FAILED|panicked" | sort | uniq -c
 mv "/tmp/$demo.rs.aside" "tests/$demo.rs"
 echo "== demo with change (expect failure)"; cargo test --offline $feat --test "$demo" 2>&1 | grep -E "^test result|FAILED|panicked" | head -5
-git stash push -q -- src
+# (no git stash: the stash is shared by all worktrees of one repository)
+git apply -R "$out/patch.diff"
 echo "== demo without change (expect pass)"; cargo test --offline $feat --test "$demo" 2>&1 | grep -E "^test result|FAILED|panicked" | head -5
-git stash pop -q
+git apply "$out/patch.diff"
